@@ -724,6 +724,99 @@ func bulkHistory(rng *rand.Rand, r *res.Result) string {
 	return ""
 }
 
+// limitHistory (C07 under concurrency): a buffer is filled until its ring has a chosen size (up to several MiB), then a
+// count limit of Count()+k or a size limit leaving room for exactly k more packets of the chosen length is set and
+// several writers are released at once, each attempting a few writes of that length. Nobody reads meanwhile, so the
+// occupancy only grows and the expected outcome does not depend on the interleaving: exactly min(k, attempts) writes
+// are accepted, the others are refused with ErrFull, Count and Size are exact afterwards, and everything accepted comes
+// out intact.
+func limitHistory(rng *rand.Rand, r *res.Result) string {
+	b := packetio.NewBuffer()
+	fillTo := []int{1000, 100_000, 200_000, 1_000_000, 3_000_000}[rng.Intn(5)]
+	psize := []int{10, 1000, 60000}[rng.Intn(3)]
+	var sizeLimit bool
+	if rng.Intn(3) == 0 {
+		sizeLimit = true
+	}
+	if fillTo > 2_500_000 || sizeLimit {
+		b.SetLimitSize(16 * 1024 * 1024) // keep the 4 MiB default cap out of the way
+	}
+	pre := 0
+	for b.Size() < fillTo {
+		if _, err := b.Write(fillBytes(30000, uint32(pre))); err != nil {
+			return ""
+		}
+		pre++
+	}
+	k := 1 + rng.Intn(3)
+	if sizeLimit {
+		b.SetLimitSize(b.Size() + k*(psize+2) + rng.Intn(psize+2))
+	} else {
+		b.SetLimitCount(b.Count() + k)
+	}
+	nw := 3 + rng.Intn(6)
+	per := 1 + rng.Intn(2)
+	var acc, ref, other int32
+	start := make(chan struct{})
+	var wg sync.WaitGroup
+	for w := 0; w < nw; w++ {
+		wg.Add(1)
+		go func(w int) {
+			defer wg.Done()
+			p := fillBytes(psize, uint32(1000+w))
+			<-start
+			for i := 0; i < per; i++ {
+				_, err := b.Write(p)
+				switch {
+				case err == nil:
+					atomic.AddInt32(&acc, 1)
+				case errors.Is(err, packetio.ErrFull):
+					atomic.AddInt32(&ref, 1)
+				default:
+					atomic.AddInt32(&other, 1)
+				}
+			}
+		}(w)
+	}
+	close(start)
+	wg.Wait()
+	r.Count("limit_histories", 1)
+	want := k
+	if nw*per < k {
+		want = nw * per
+	}
+	kind := "count"
+	if sizeLimit {
+		kind = "size"
+	}
+	if other != 0 {
+		return fmt.Sprintf("%d concurrent writes failed with an error other than ErrFull", other)
+	}
+	if int(acc) != want {
+		return fmt.Sprintf("%s limit with room for exactly %d more packets of %d bytes (ring filled to %d bytes before): %d of %d concurrent writes were accepted, %d refused", kind, k, psize, fillTo, acc, nw*per, ref)
+	}
+	if b.Count() != pre+want || b.Size() != pre*30002+want*(psize+2) {
+		return fmt.Sprintf("after the concurrent writes Count=%d Size=%d, expected %d and %d", b.Count(), b.Size(), pre+want, pre*30002+want*(psize+2))
+	}
+	buf := make([]byte, 70000)
+	for i := 0; i < pre+want; i++ {
+		n, err := b.Read(buf)
+		if err != nil {
+			return fmt.Sprintf("read %d of %d failed: %v", i, pre+want, err)
+		}
+		if i < pre && !bytes.Equal(buf[:n], fillBytes(30000, uint32(i))) {
+			return fmt.Sprintf("pre-filled packet %d came out with different bytes", i)
+		}
+		if i >= pre && n != psize {
+			return fmt.Sprintf("packet %d came out with %d bytes, want %d", i, n, psize)
+		}
+	}
+	if b.Count() != 0 || b.Size() != 0 {
+		return fmt.Sprintf("after draining Count=%d Size=%d", b.Count(), b.Size())
+	}
+	return ""
+}
+
 var clock int64
 
 func tick() int64 { return atomic.AddInt64(&clock, 1) }
@@ -880,6 +973,40 @@ func main() {
 				if seen[v.key] <= 2 {
 					r.Violate(v.key, v.desc, h)
 				}
+			}
+		}
+	case "conclimit":
+		r.Rule = "limits under concurrency: a buffer filled to {1 KB, 100 KB, 200 KB, 1 MB, 3 MB} gets a count limit of Count()+k or a size limit with room for exactly k more packets (k = 1..3), then 3-8 writers released at once attempt 1-2 writes each while nobody reads: exactly min(k, attempts) writes are accepted, the rest get ErrFull, Count and Size are exact and everything comes out intact; distinct = (fill, packet size, limit kind, k, writers) cells"
+		n := 400
+		if *tier == "thorough" {
+			n = 4000
+		}
+		n /= *nshard
+		seen := 0
+		for i := 0; i < n && seen < 3; i++ {
+			ld := make(chan string, 1)
+			go func() { ld <- limitHistory(rng, r) }()
+			select {
+			case why := <-ld:
+				r.Eval(1)
+				if why != "" {
+					seen++
+					r.Violate("conc-limit", why, map[string]interface{}{"phase": "conclimit", "seed": *seed, "shard": *shard, "history": i})
+				}
+			case <-time.After(60 * time.Second):
+				var stuck []string
+				for _, g := range gstate.Snapshot() {
+					if f := g.Innermost("pion/transport/v3/packetio."); f != "" && gstate.Blocked(g.State) {
+						stuck = append(stuck, f+" ["+g.State+"]")
+					}
+				}
+				if len(stuck) > 0 {
+					r.Violate("conc-stuck", fmt.Sprintf("concurrent writers against a limit did not finish within 60 s: goroutines are parked inside the buffer: %v", stuck), nil)
+				} else {
+					r.Inconc("limit history did not finish within 60 s, nothing parked inside packetio")
+				}
+				r.Write(*out)
+				os.Exit(0)
 			}
 		}
 	case "conc":
